@@ -29,6 +29,9 @@ INLINE = e2_tree.INLINE + [
     (re.compile(r"^key::Prefix::(item|tree|updated|all)$"), r"key::<impl at [^>]*>::{name}$", "-> key::Prefix"),
     (re.compile(r"^Key::metadata$"), r"key::.*::metadata$", "-> Key"),
     (re.compile(r"^NodeId::metadata$"), r"node_id::.*::metadata$"),
+    (re.compile(r"^item_leaf::<D>$"), r"^item_leaf$"),
+    (re.compile(r"^Key::(item|tree|updated|version)$"), r"key::.*::{name}$", "-> Key"),
+    (re.compile(r"^NodeId::(item|tree|updated|version)$"), r"node_id::.*::{name}$"),
 ]
 
 
